@@ -83,6 +83,16 @@ inductive Shape
   | outs (rs : List Ref)     -- returns these objects (any length, repetitions allowed)
   deriving DecidableEq, Repr, Inhabited
 
+/-- state of the consumed message's own `context.Context` around the call of the handler function.  The router does
+    not look at it: `handleMessage` decides on the function's returned error only (a function that returns `nil`
+    although the context is done has its outputs published and the message acked like any other). -/
+inductive CtxDone
+  | live             -- not done
+  | cancelledBefore  -- already cancelled when the message is delivered
+  | cancelledDuring  -- cancelled while the function runs (by the function itself, a closing router, a stopped handler)
+  | deadlineOverrun  -- carries a deadline that passes before the function returns
+  deriving DecidableEq, Repr, Inhabited
+
 /-- a message handed to (subscriber `sub`, topic `topic`) -/
 structure Delivery where
   sub   : Nat
@@ -90,6 +100,7 @@ structure Delivery where
   mid   : Nat
   shape : Shape
   ctx   : Ctx := []          -- router keys already present on the incoming message's context
+  done  : CtxDone := .live   -- cancellation state of that context (irrelevant to the router, see `CtxDone`)
   deriving Repr, Inhabited
 
 inductive Settle | ack | nack
